@@ -133,6 +133,14 @@ pub struct Machine {
     pub maxdepth: usize,
     /// overflow of the machine's own arrays (never a verdict: harness must treat as inconclusive)
     pub overflow: bool,
+    /// trace of what the executed path checked successfully (C13): keys whose signature verified,
+    /// hash atoms whose preimage was hashed, CLTV / CSV operands that passed (up to 2 each)
+    pub t_sigs: u8,
+    pub t_pres: u8,
+    pub t_cltv: [i64; 2],
+    pub t_ncltv: u8,
+    pub t_csv: [i64; 2],
+    pub t_ncsv: u8,
 }
 
 pub fn truthy(e: El) -> bool { !(e.t == tag::EMPTY || e.t == tag::ZERO32) }
@@ -197,7 +205,7 @@ fn boolel(b: bool) -> El {
 
 impl Machine {
     pub fn new() -> Self {
-        Machine { st: [EMPTY; STACK], sp: 0, alt: [EMPTY; ALT], ap: 0, cdepth: 0, cfalse: 0, ok: true, ops: 0, maxdepth: 0, overflow: false }
+        Machine { st: [EMPTY; STACK], sp: 0, alt: [EMPTY; ALT], ap: 0, cdepth: 0, cfalse: 0, ok: true, ops: 0, maxdepth: 0, overflow: false, t_sigs: 0, t_pres: 0, t_cltv: [0; 2], t_ncltv: 0, t_csv: [0; 2], t_ncsv: 0 }
     }
     #[inline]
     fn push(&mut self, e: El) {
@@ -259,7 +267,11 @@ impl Machine {
             return false;
         }
         let _ = env;
-        s.n == 1 && s.a == k.a
+        let r = s.n == 1 && s.a == k.a;
+        if r && k.a < 8 {
+            self.t_sigs |= 1 << k.a;
+        }
+        r
     }
 
     pub fn step(&mut self, o: Op, env: &Env) {
@@ -418,6 +430,7 @@ impl Machine {
                     _ => H_HASH160,
                 };
                 let r = if e.t == tag::PRE && (e.a as usize) < 4 && env.hashkind[e.a as usize] == kind {
+                    self.t_pres |= 1 << e.a;
                     el(tag::HASH, e.a, 0)
                 } else if e.t == tag::KEY && c == op::HASH160 {
                     el(tag::KEYHASH, e.a, 0)
@@ -529,6 +542,11 @@ impl Machine {
                         let lt = env.n_lock_time as i64;
                         if n < 0 || ((n < 500_000_000) != (lt < 500_000_000)) || n > lt || env.n_sequence == 0xffff_ffff {
                             self.ok = false;
+                        } else {
+                            if (self.t_ncltv as usize) < 2 {
+                                self.t_cltv[self.t_ncltv as usize] = n;
+                            }
+                            self.t_ncltv += 1;
                         }
                     }
                 }
@@ -549,6 +567,11 @@ impl Machine {
                             let sm = seq & mask;
                             if seq & (1 << 31) != 0 || ((nm < flag) != (sm < flag)) || nm > sm {
                                 self.ok = false;
+                            } else {
+                                if (self.t_ncsv as usize) < 2 {
+                                    self.t_csv[self.t_ncsv as usize] = n;
+                                }
+                                self.t_ncsv += 1;
                             }
                         }
                     }
